@@ -234,6 +234,12 @@ type sitesOut struct {
 	gateCond string
 	between  []string
 	fns      []string // every function with a body
+	// L3 additions (sites_l3.go)
+	exits    []loopExit
+	consts   []durConst
+	assigns  []fieldAssign
+	endRecvs []endRecvSite
+	msgRets  []msgReturn
 }
 
 // ---------------------------------------------------------------------------
@@ -258,6 +264,10 @@ type fnCtx struct {
 	tainted  map[types.Object]bool
 	seen     map[string]int
 	errs     *[]string
+	// closures assigned to local variables and the contexts of their calls
+	localLits map[*ast.FuncLit][]ctxT
+	pass      int
+	finding   bool
 }
 
 type selInfo struct {
@@ -326,6 +336,14 @@ func (c *fnCtx) gctxNode() (kind, arg string, post ast.Node) {
 		lit, ok := c.stack[i].(*ast.FuncLit)
 		if !ok || i == 0 {
 			continue
+		}
+		// a closure held in a local variable runs where the variable is called
+		if cs, ok := c.localLits[lit]; ok && !c.finding && len(cs) > 0 {
+			j := c.pass
+			if j >= len(cs) {
+				j = 0
+			}
+			return cs[j].kind, cs[j].arg, cs[j].post
 		}
 		switch p := c.stack[i-1].(type) {
 		case *ast.SendStmt:
@@ -877,6 +895,9 @@ func (c *fnCtx) visit(n ast.Node) bool {
 		return true
 	}
 	c.stack = append(c.stack, n)
+	if c.pass == 0 {
+		c.visitL3(n)
+	}
 	switch x := n.(type) {
 	case *ast.SelectStmt:
 		si := &selInfo{sel: x, chans: map[ast.Node]string{}}
@@ -1292,7 +1313,22 @@ func (c *fnCtx) run() {
 		return true
 	})
 	c.computeTaint()
+	c.finding = true
+	c.findLocalClosures()
+	c.finding = false
+	c.pass = 0
 	ast.Inspect(c.body, c.visit)
+	// further passes: sites inside a local closure that is called in more than
+	// one goroutine context are emitted once per context
+	for p := 1; p < c.passes(); p++ {
+		c.pass = p
+		c.seen = map[string]int{}
+		c.commOps = map[ast.Node]*selInfo{}
+		c.stack = nil
+		ast.Inspect(c.body, c.visitPass)
+	}
+	c.pass = 0
+	c.seen = map[string]int{}
 }
 
 var orderFns = map[string]bool{
@@ -1335,6 +1371,7 @@ func genSites(repo, out string) error {
 	globalMarks = map[*types.Var]map[string]bool{}
 	foundOrder := map[string]bool{}
 	foundSwitch := false
+	foundLoop := map[string]bool{}
 	posters = map[string]posterInfo{}
 	var ctxs []*fnCtx
 	for _, rel := range pkgDirs {
@@ -1379,6 +1416,7 @@ func genSites(repo, out string) error {
 					c.findPoster()
 					ctxs = append(ctxs, c)
 				case *ast.GenDecl:
+					res.addConsts(rel, info, x)
 					if x.Tok != token.VAR {
 						continue
 					}
@@ -1434,10 +1472,20 @@ func genSites(repo, out string) error {
 		if c.name == "router.realm.handleInboundMessages" {
 			foundSwitch = c.inboundSwitch(res)
 		}
+		if loopFns[c.name] {
+			foundLoop[c.name] = true
+			c.loopExits()
+		}
+		c.msgReturns()
 	}
 	for name := range orderFns {
 		if !foundOrder[name] {
 			errs = append(errs, "function not found for statement order: "+name)
+		}
+	}
+	for name := range loopFns {
+		if !foundLoop[name] {
+			errs = append(errs, "serving loop not found: "+name)
 		}
 	}
 	if !foundSwitch {
@@ -1902,18 +1950,32 @@ func emitSites(res *sitesOut, out string) error {
 	}
 	w("]\n\n")
 
+	emitL3(res, k, w, cm, gc, gcText)
+
 	// dictionary, for diagnostics (#eval) only
 	var hs []uint64
 	for h := range kt.byHash {
 		hs = append(hs, h)
 	}
 	sort.Slice(hs, func(i, j int) bool { return kt.byHash[hs[i]] < kt.byHash[hs[j]] })
-	w("/-- Key → text, for diagnostics only (never used in a theorem). -/\n")
-	w("def dictionary : List (Nat × String) := [\n")
-	for i, h := range hs {
-		w("  (%d, %s)%s\n", h, leanStr(kt.byHash[h]), sComma(i, len(hs)))
+	// in chunks: one list literal of this size exceeds Lean's default recursion depth
+	const dictChunk = 500
+	var parts []string
+	for lo := 0; lo < len(hs); lo += dictChunk {
+		hi := lo + dictChunk
+		if hi > len(hs) {
+			hi = len(hs)
+		}
+		name := fmt.Sprintf("dictionary%d", lo/dictChunk)
+		parts = append(parts, name)
+		w("def %s : List (Nat × String) := [\n", name)
+		for i, h := range hs[lo:hi] {
+			w("  (%d, %s)%s\n", h, leanStr(kt.byHash[h]), sComma(i, hi-lo))
+		}
+		w("]\n\n")
 	}
-	w("]\n\n")
+	w("/-- Key → text, for diagnostics only (never used in a theorem). -/\n")
+	w("def dictionary : List (Nat × String) := %s\n\n", strings.Join(parts, " ++ "))
 	w("end Nexus.Gen.Sites\n")
 	if kt.err != nil {
 		return kt.err
